@@ -520,6 +520,17 @@ impl NodeRef {
                         stack.push(Step::Exit(node.clone()));
                         // The last step pushed is the first one handled.
                         let children = node.children().collect::<Vec<_>>();
+
+                        // A parser ignores a newline that directly follows the start tag of these
+                        // elements, so a text that begins with one needs another one in front.
+                        if matches!(&*data.name.local, "pre" | "textarea" | "listing")
+                            && children.first().is_some_and(|child| {
+                                matches!(child.data(), NodeData::Text(text) if text.borrow().starts_with('\n'))
+                            })
+                        {
+                            serializer.write_text("\n")?;
+                        }
+
                         stack.extend(children.into_iter().rev().map(Step::Enter));
                     }
                     NodeData::Document => {
